@@ -99,6 +99,25 @@ def run_harness(ctx, histories, steps, seed):
     return [json.loads(l) for l in open(out) if l.strip()]
 
 
+def run_engine_oracles(ctx, prop, prefixes, histories=16, steps=10, seed_offset=9):
+    """Drive whole builds of real projects (the engine harness: scripted scenarios first, then random histories, every build a
+    fresh process) and report the direct oracles that belong to `prop`. Used by properties whose model is elsewhere (C04:
+    the runner) for the part of the statement that is only visible at project level (labels, LoadTarget)."""
+    hs = run_harness(ctx, histories, steps, ctx.seed * 100 + seed_offset)
+    if hs is None:
+        return
+    mine = [(h, o) for h in hs for o in (h.get("oracles") or []) if any(o.startswith(p) for p in prefixes)]
+    for h, o in mine[:5]:
+        ctx.violation("implementation violates %s: %s" % (prop, o),
+                      {"oracle": o, "seed": h["seed"], "history_index": h["index"], "history": h["ops"],
+                       "how": "harness/overlay/root/zz_verif_engine*_test.go replays it (VERIF_SEED/VERIF_HISTORIES as recorded)"})
+    nb = sum(1 for h in hs for op in h["ops"] if op["op"] == "build")
+    ctx.coverage["correspondence"]["project_level_histories"] = len(hs)
+    ctx.coverage["correspondence"]["project_level_builds"] = nb
+    ctx.coverage["correspondence"]["project_level_oracle_failures"] = len(mine)
+    ctx.log("project-level: histories=%d builds=%d oracle_failures=%d" % (len(hs), nb, len(mine)))
+
+
 COMPONENT = {1: "evaluation order", 2: "build result", 3: "set of executed bodies", 4: "per-label events", 5: "persisted records"}
 
 
@@ -165,18 +184,42 @@ def run_engine(ctx, prop, props_file, prefixes, seed_offset, what):
         ctx.violation("model evaluation failed", {"theorem_or_correspondence": "Build/Run.v evaluation", "log": logs[:2]},
                       found_input=False)
         return
-    flat = [x for r in res for x in r]
-    groups, cur = [], []
-    for x in flat:
-        if x == 999999:
-            groups.append(cur)
-            cur = []
-        else:
-            cur.append(x)
+    # each shard: disagreements..., 777777, histories outside the hypotheses of incremental_eq_clean (index, reasons)...
+    def split_groups(xs):
+        gs, cur = [], []
+        for x in xs:
+            if x == 999999:
+                gs.append(cur)
+                cur = []
+            else:
+                cur.append(x)
+        return gs
+    groups, outside = [], []
+    for r in res:
+        k = r.index(777777) if 777777 in r else len(r)
+        groups += split_groups(r[:k])
+        outside += split_groups(r[k + 1:])
+    WHY = {1: "a path with two generating labels", 2: "one environment with two behaviours (reads/outputs/constant)",
+           3: "an edit writes a generated path", 4: "a body ran in a killed build with neither final record nor re-run mark"}
+    why = {}
+    for g in outside:
+        for c in g[1:]:
+            why[WHY.get(c, str(c))] = why.get(WHY.get(c, str(c)), 0) + 1
+    ctx.coverage["correspondence"]["histories_within_incremental_eq_clean_hypotheses"] = len(hs) - len(outside)
+    ctx.coverage["correspondence"]["histories_outside_hypotheses_by_reason"] = why
+    unmarked = [g for g in outside if 4 in g[1:]]
+    if unmarked and prop in ("C03", "C01"):
+        byidx0 = {h["index"]: h for h in hs}
+        h0 = byidx0.get(unmarked[0][0])
+        ctx.violation("implementation violates %s: in a killed build a target body ran without its final record being written "
+                      "and without the re-run mark having been written before it (history %d; %d histories)" % (
+                          prop, unmarked[0][0], len(unmarked)),
+                      {"oracle": "crash_wf (hypothesis of incremental_eq_clean, established by the pre-body re-run mark)",
+                       "history_index": unmarked[0][0], "history": h0["ops"] if h0 else None, "seed": h0["seed"] if h0 else None})
     ctx.coverage["correspondence"]["histories"] = len(hs)
     ctx.coverage["correspondence"]["disagreeing_histories"] = len(groups)
-    ctx.log("histories=%d ops=%d builds=%d disagreements=%d own-oracle-failures=%d" % (
-        len(hs), ctx.coverage["evaluations"], nbuilds, len(groups), len(mine)))
+    ctx.log("histories=%d ops=%d builds=%d disagreements=%d own-oracle-failures=%d within-clean-theorem-hypotheses=%d %s" % (
+        len(hs), ctx.coverage["evaluations"], nbuilds, len(groups), len(mine), len(hs) - len(outside), why or ""))
     if groups and not mine:
         byidx = {h["index"]: h for h in hs}
         g = groups[0]
